@@ -6,6 +6,7 @@ import itertools
 from common import run_driver, run_workers
 
 RESOLUTIONS = [60, 300, 900, 1800, 3600]
+ODD_RESOLUTIONS = [420, 1500, 3000]          # 7, 25, 50 minutes: a day is not a whole number of slots
 BASES = [1735689600, 1736121600 + 9 * 3600, 1709164800 + 17 * 60, 1798675200 - 3600]  # 2025-01-01, Mon 09:00, leap day 00:17, 2026-12-31 23:00
 
 
@@ -46,6 +47,20 @@ def cases_index(ctx, exhaustive_windows):
                     for t in sorted(ts):
                         cs.append({"f": "pd2i", "a": [s, r, t]})
                     cs.append({"f": "psize", "a": [s, e, r]})
+    # resolutions that do not divide a day, on windows of several days (indices beyond the first day)
+    for base in BASES[:2]:
+        for r in ODD_RESOLUTIONS:
+            for nslots in (40, 230):
+                s, e = base, base + nslots * r + 1
+                size = -((-(e - s)) // r) + 1
+                cs.append({"f": "size", "a": [s, e, r], "w": (s, e, r, size)})
+                for i in list(range(-1, 4)) + list(range(size - 60, size + 2)) + list(range(25, size, 7)):
+                    cs.append({"f": "i2d", "a": [s, e, r, size, i, 0], "w": (s, e, r, size)})
+                    cs.append({"f": "pi2d", "a": [s, r, i]})
+                    for d in (0, 1, r - 1):
+                        t = s + i * r + d
+                        cs.append({"f": "d2i", "a": [s, e, r, size, t, 0], "w": (s, e, r, size)})
+                        cs.append({"f": "pd2i", "a": [s, r, t]})
     return cs
 
 
